@@ -70,6 +70,7 @@ struct Registrar { explicit Registrar(const Subject* s) { register_subject(s); }
 const Subject* find_subject(const std::string& name);
 const std::vector<const Subject*>& all_subjects();
 
+const std::string& current_prop();         // property id of the run being generated / executed (for prop-specific program shapes)
 int harness_main(int argc, char** argv);   // CLI: --list | --worker | --replay f | --run ...
 
 } // namespace vh
